@@ -15,7 +15,9 @@ from vf.trees import Tree
 # "defaults to the port of the current server" is distinguishable from "70"
 HOST, PORT = driver.SERVER_NAME.encode(), 7071
 TYPES = "0179hgIs4569T8"
-WORDS = [b"About", b"News", b"Files", b"caf\xc3\xa9", b"R\xe9sum\xe9", b"Old stuff", b"a & b", b"<tag>", b"x=y", b"Q?"]
+WORDS = [b"About", b"News", b"Files", b"caf\xc3\xa9", b"R\xe9sum\xe9", b"Old stuff", b"a & b", b"<tag>", b"x=y", b"Q?",
+         # characters that some line splitters (str.splitlines) treat as line ends; a gophermap line ends at LF only
+         b"form\x0cfeed", b"vt\x0btab", b"fs\x1csep", b"nel\xc2\x85next", b"ls\xe2\x80\xa8sep", b"cr\rmid"]
 
 
 def gophermap_ref(text: bytes, dirsel: bytes, relative_ok: bool = True) -> typing.List[tuple]:
@@ -71,8 +73,11 @@ def gen_map(rng, existing: typing.List[bytes], allow_relative: bool) -> bytes:
                 lines.append(b"h" + name + b"\tURL:http://www.example.org/" + rng.choice([b"", b"a/b", b"x?y=1"]))
             elif k < 0.9:
                 lines.append(typ + name + b"\t/remote/sel\tgopher%d.example.org\t%d" % (rng.randrange(5), rng.choice([70, 7070])))
-            else:
+            elif k < 0.95:
                 lines.append(typ + name + b"\t/remote/noport\tgopher.example.org")
+            else:
+                # host field present but empty, port given: this host, that port
+                lines.append(typ + name + b"\t/otherport/sel\t\t%d" % rng.choice([7070, 105, PORT]))
     text = b"\n".join(lines)
     if lines:
         text += rng.choice([b"\n", b"\n", b""])
@@ -193,7 +198,7 @@ def main() -> int:
              "*.gophermap file, listed through 9 protocol views; Gopher compared field by field with the reference "
              "reading, the others as (class, name, target) sequences. distinct = (as file?, depth, entry classes, "
              "size bucket, CRLF file?)",
-        assumptions=["fields carry no leading/trailing blanks; host is never omitted when a port is given; a missing "
+        assumptions=["fields carry no leading/trailing blanks; an empty host field with a port means this host on that port; a missing "
                      "selector is generated only for local entries; *.gophermap files use no relative selectors (the "
                      "manual does not say what they are relative to)"])
 
